@@ -124,6 +124,35 @@ impl Program {
         Ok(true)
     }
 
+    /// A file is identified by the path under which it was first registered. Bytecode refers to files
+    /// (its own file included) by the paths used when it was compiled, for example `main.mmm#f`, while the
+    /// entry point is registered under the path given on the command line, for example `./main.mmm` or
+    /// `/project/main.mmm`. Opening a file a second time because its path is spelled differently would
+    /// create a second instance of the module, with an export table of its own.
+    ///
+    /// # Returns
+    /// The spelling under which the file at `path` is in use, or `path` itself if that file is not in use.
+    /// Files that only exist in memory have no other spelling.
+    fn registered_spelling(&self, path: String) -> String {
+        let files_in_use = self.files_in_use.borrow();
+
+        if files_in_use.contains_key(&path) {
+            return path;
+        }
+
+        let Ok(canonical_path) = std::fs::canonicalize(&path) else {
+            return path;
+        };
+
+        files_in_use
+            .keys()
+            .find(|loaded_path| {
+                std::fs::canonicalize(loaded_path.as_str())
+                    .map_or(false, |loaded_path| loaded_path == canonical_path)
+            })
+            .map_or(path, |loaded_path| loaded_path.to_string())
+    }
+
     /// Get a reference to a [`MScriptFile`]. The file **must** have already been registered.
     ///
     /// # Errors
@@ -163,7 +192,7 @@ impl Program {
 
         let (path, label) = destination_label.split_at(last_hash);
 
-        let path = path.to_string().replace('\\', "/");
+        let path = self.registered_spelling(path.to_string().replace('\\', "/"));
         let path_ref = &path;
 
         let added = self.add_file(Rc::new(path.clone()))?;
@@ -230,6 +259,14 @@ impl Program {
         match &request.destination {
             JumpRequestDestination::Standard(_) => self.process_standard_jump_request(request),
             JumpRequestDestination::Module(path) => {
+                // the cache is keyed by `<path of the file>#__module__`
+                let path = &match path.rsplit_once('#') {
+                    Some((file, label)) => {
+                        format!("{}#{label}", self.registered_spelling(file.to_owned()))
+                    }
+                    None => path.to_owned(),
+                };
+
                 log::info!("runtime @import {path}");
                 {
                     let view = self.module_cache.borrow_mut();
